@@ -24,7 +24,8 @@ def history(rng, fam, thorough):
                  total + rng.range(1, 64), total + rng.range(1, 3 * PAGE), cap + rng.range(2, PAGE)]
         if thorough:
             cands += [8 * cap + 1, 8 * cap - 1]
-        target = rng.choice([c for c in cands if c >= total])
+        # committed totals are kept below 1 MiB: beyond that the hex-encoded histories only cost memory, the capacity ladder is the same
+        target = rng.choice([c for c in cands if total <= c <= max(total, 1 << 20)])
         need = target - total
         while need > 0:
             c = rng.below(10)
